@@ -114,6 +114,11 @@ func c02Devs() []c02Dev {
 			add("alg", k+"+"+s, func(c *refcfg.CertCfg, aux *c02Aux) { c.KeyAlg, c.SigAlg, aux.keyFix = k, s, FixtureForAlg(k, 0) })
 		}
 	}
+	// the entity brings an RSA key of its own whose modulus length is no multiple of 8 bits
+	for _, f := range []string{"RSA-1023-0", "RSA-1025-0", "RSA-2047-0"} {
+		f := f
+		add("alg", "own-key-"+f, func(c *refcfg.CertCfg, aux *c02Aux) { c.KeyAlg, c.SigAlg, aux.keyFix = "RSA-2048", "RSAwithSHA256", f })
+	}
 	// subordinate under RSA / EC issuers
 	for _, ia := range []string{"RSA-2048", "P-384", "brainpoolP256r1"} {
 		ia := ia
@@ -189,6 +194,13 @@ func c02Devs() []c02Dev {
 		l := l
 		add("ext", fmt.Sprintf("custom-raw-%d", l), func(c *refcfg.CertCfg, _ *c02Aux) {
 			c.Exts = []refcfg.Ext{{Kind: refcfg.KCustom, CustomOID: "1.2.3.4.5", Raw: refcfg.Bin(bytes.Repeat([]byte{0x5a}, l))}}
+		})
+	}
+	// INTEGERs inside an extension around the octet boundaries (sign octet needed / not needed)
+	for _, pl := range []int{1, 127, 128, 255, 256, 32767, 32768, 65535, 65536, 8388607, 8388608, math.MaxInt32} {
+		pl := pl
+		add("ext", fmt.Sprintf("basicConstraints-pathLen-%d", pl), func(c *refcfg.CertCfg, _ *c02Aux) {
+			c.Exts = []refcfg.Ext{{Kind: refcfg.KBC, Critical: refcfg.B(true), BC: &refcfg.BasicConstraints{Ca: refcfg.B(true), PathLen: refcfg.I(pl)}}}
 		})
 	}
 	add("ext", "large-oid-arcs", func(c *refcfg.CertCfg, _ *c02Aux) {
@@ -330,6 +342,10 @@ func c02Once(x *engine.Ctx, c *c02Case) (violations int) {
 			for _, df := range diffs {
 				if df.Owner == "C03" && (strings.HasPrefix(df.Class, "C03/uid/") || strings.HasPrefix(df.Class, "C03/serial/")) {
 					v("C02/readback/"+strings.TrimPrefix(df.Class, "C03/"), df.Detail+"  ["+strings.Join(names, " ")+"]")
+				}
+				// an INTEGER inside an extension (basicConstraints pathLen) that reads back as another number
+				if df.Owner == "C07" && strings.HasPrefix(df.Class, "C07/basicConstraints/") && !strings.Contains(df.Class, "pathLen=0") {
+					v("C02/readback/basicConstraints", df.Detail+"  ["+strings.Join(names, " ")+"]")
 				}
 			}
 		}
